@@ -212,6 +212,30 @@ def validate_histories(ctx, hists, label):
         ctx.sample(dict(kind='history-' + label, history=ok[len(ok) // 2][0], recorded=ok[len(ok) // 2][1]))
 
 
+def validate_repo_tests(ctx):
+    """traces recorded from the repository's own tests (harness/recorder.py) validated against the same trace specification"""
+    from .. import repotrace
+    d = repotrace.record()
+    traces = d['cliff']
+    if not traces:
+        raise core.MachineryError('the repository tests produced no CliffordCircuit trace: ' + d['pytest_tail'])
+    acc, rej, results = tlc.validate_events('pauli/Trace_CliffordCircuit.tla', 'pauli/Trace_CliffordCircuit.cfg', traces, shards=1, per_trace=True)
+    for r in results:
+        ctx.states += r.distinct
+        ctx.transitions += r.generated
+    ctx.models.append(dict(model='Trace_CliffordCircuit[repository tests]', traces=len(traces), events=sum(len(t) for t in traces), accepted=acc, rejected=len(rej),
+                           pytest=d['pytest_tail'], exhaustive=False))
+    ctx.traces += len(traces)
+    for t in traces:
+        ctx.case(('repo-test-trace', len(t), repr(t[:12])))
+    for gi, info in rej:
+        t = traces[gi]
+        l = info[1]
+        ctx.violation('C07:CliffordCircuit:%s:repository-test' % t[l - 1]['op'],
+                      'a CliffordCircuit history executed by the repository tests is rejected by Trace_CliffordCircuit at event %d (%s)' % (l, t[l - 1]['op']),
+                      dict(trace=t[:l], event=l))
+
+
 def run(ctx):
     quick = ctx.tier == 'quick'
     rng = random.Random(ctx.seed)
@@ -260,6 +284,7 @@ def run(ctx):
     for i in range(300 if quick else 3000):
         rh.append(random_history(rng, rng.randint(1, 4), rng.randint(3, 40)))
     validate_histories(ctx, rh, 'random')
+    validate_repo_tests(ctx)
 
 
 def replay(ctx, rec):
